@@ -249,7 +249,7 @@ void run_typed(const RunCfg& c, const char* type_name) {
   uint64_t headroom = (uint64_t)Lim::max() - (uint64_t)end;
   uint64_t step = c.func == 0 ? 1 : (uint64_t)c.block;
   bool wraps = headroom < (uint64_t)c.eff_threads * step;
-  int progress = (wraps && c.progress == 2) ? 0 : c.progress; // the default progress function would only add UB on the wrapped cursor
+  int progress = c.progress;
   string cfg_key = string(c.func == 0 ? "range" : (c.func == 1 ? "blocks" : "multi"));
 
   std::set<uint64_t> true_set;
@@ -303,8 +303,7 @@ void run_typed(const RunCfg& c, const char* type_name) {
       string k = string(c.func == 0 ? "range" : (c.func == 1 ? "blocks" : "multi")) + (progress == 2 ? "/default_progress" : (progress == 1 ? "/progress_fn" : ""));
       const char* cls = vpar::deadlocked() ? "deadlock" : "no_termination";
       string msg = vpar::deadlocked() ? "no task can make a step and no timer is pending" : "the call did not finish within the step budget of the scheduler (it keeps running although every worker has stopped or all values are done)";
-      if (wraps) fail_soft("cursor_wrap/near_type_max", "end_value>max-threads*block", "end_value is within num_threads*block_size of " + string(type_name) + "'s maximum, the cursor wraps around: " + msg + " [" + cls + "]");
-      else fail_soft(cls, k, msg);
+      fail_soft(cls, wraps ? k + "/end_value_near_type_max" : k, msg);
     }
     throw;
   }
@@ -323,22 +322,18 @@ void run_typed(const RunCfg& c, const char* type_name) {
   // shared cursor wrap around (every worker overshoots end_value by one claim). Everything that goes
   // wrong in such a run is reported as ONE class, so that the recorded known finding covers exactly this
   // situation and nothing else.
+  // (`wraps`: end_value lies within num_threads*block_size of the type's maximum. With the original claim protocol
+  // - an unconditional fetch_add - the cursor wrapped around in these configurations; repaired in /repo, see
+  // known_findings.json. They are ordinary configurations now; the key says so to make a regression recognisable.)
   auto vfail = [&](const string& cls, const string& key, const string& msg) {
-    if (wraps) {
-      fail("cursor_wrap/near_type_max", "end_value>max-threads*block",
-          "end_value is within num_threads*block_size of " + string(type_name) + "'s maximum, the cursor wraps around: " + msg + " [" + cls + "]");
-    }
-    fail(cls, key, msg);
+    fail(cls, wraps ? key + "/end_value_near_type_max" : key, msg + (wraps ? " (end_value is within num_threads*block_size of " + string(type_name) + "'s maximum)" : ""));
   };
   const auto& calls = vpar::calls();
   const auto& st = vpar::stats();
   hash_u64(st.schedule_hash);
   if (vpar::deadlocked()) vfail("deadlock", cfg_key, "no task can make a step and no timer is pending");
   if (vpar::budget_exhausted()) vfail("no_termination", cfg_key, "the call did not finish within the step budget of the scheduler");
-  if (failed()) {
-    if (wraps) vfail("recorded_in_callback", cfg_key, "a violation was recorded while the call was running");
-    throw AbortRun();
-  }
+  if (failed()) throw AbortRun();
 
   if (!c.block_divides) {
     if (!threw_logic) fail("blocks/non_divisor_accepted", cfg_key, "block_size does not divide the range but no logic_error was thrown");
@@ -561,12 +556,12 @@ int main(int argc, char** argv) {
   e.property = "C16";
 #ifdef VSIM_TSAN_BUILD
   e.name = "sim-par-tsan";
-  e.quick_runs = 60000;
-  e.thorough_runs = 700000;
+  e.quick_runs = 200000;
+  e.thorough_runs = 3000000;
 #else
   e.name = "sim-par";
-  e.quick_runs = 200000;
-  e.thorough_runs = 2500000;
+  e.quick_runs = 1000000;
+  e.thorough_runs = 12000000;
 #endif
   e.run = run;
   e.quick_cap_s = 120;
